@@ -1,1 +1,3 @@
+pub mod der_writer;
+pub mod medium;
 pub mod rng;
